@@ -33,6 +33,7 @@ def run(ctx, rep):
     rep.run(RT.rule_no_phantom_read, ctx, rep, "V2")
     rep.run(RG.rule_termination, ctx, rep, "V3")
     rep.run(RF.rule_not_swallowed, ctx, rep, "V4", min_try=3)
+    rep.run(RF.rule_typedef_target_kinds, ctx, rep, "V8")
     rep.run(RF.rule_no_write_before_reject, ctx, rep, "V5", min_entries=5)
     rep.run(RF.rule_validations_present, ctx, rep, "V6")
     rep.run(RF.rule_arity_validated, ctx, rep, "V6")
